@@ -6,4 +6,4 @@ package wrapper
 //@ func WrapOrDie(cmd) ()
 //@   uses sappLen, slsetLen
 //@   loop 1
-//@     invariant (= (sllen args) (sllen args@loop))
+//@     invariant (= (sllen (sitems args)) (sllen (sitems args@loop)))
